@@ -159,6 +159,8 @@ func (s *Sim) exec(o Op, plan map[int]world.InjectKind, provFail map[int]bool) (
 		_ = s.stepRestart()
 	case "reload":
 		_ = s.stepReload(o.Topo)
+	case "reload-retry":
+		_ = s.stepReloadRetry(o.Topo)
 	case "apirelease":
 		s.stepAPIRelease(o.Str)
 	case "poolset":
